@@ -96,6 +96,7 @@ class GenCfg:
     p_overhang: float = 0.0          # an operator ends 1-2 us BEFORE its last child (timer glitch: not properly nested any more)
     p_nested_annotation: float = 0.0 # a child slot of an operator becomes a user annotation that wraps further operators
     bwd_end_tie: bool = False        # the last autograd operator inside a backward annotation / profiler step ends exactly when that one ends
+    rank_ids: Optional[Tuple[int, ...]] = None   # the job's rank numbers when they are not 0..n-1 (a sampled job: e.g. ranks 0, 2, 5)
     p_launch_at_step_end: float = 0.0  # a launch call of the main thread begins at the very instant a profiler step ends (window boundary)
     p_graph_launch: float = 0.0      # a launch call starts SEVERAL kernels that all carry its correlation id (CUDA graph launch); outside the
                                      # "one host call, one device activity per id" domain, so only for properties without that restriction
@@ -598,6 +599,11 @@ def gen_trace_set(rng: random.Random, cfg: GenCfg) -> List[RankTrace]:
     import dataclasses
     out = [gen_rank(rng, dataclasses.replace(cfg, **cfg.per_rank[r]) if cfg.per_rank and r in cfg.per_rank else cfg, r)
            for r in range(cfg.n_ranks)]
+    if cfg.rank_ids:
+        for rt, rid in zip(out, cfg.rank_ids):
+            rt.rank = rid
+            rt.meta["distributedInfo"]["rank"] = rid
+            rt.meta["traceName"] = f"rank{rid}.json"
     if cfg.big_vocab and len(out) >= 2:
         r0 = out[0]
         hosts = [e for e in r0.events if e.get("cat") == "cpu_op" and e.get("ph") == "X"]
